@@ -7,4 +7,10 @@ func init() {
 		gCommitLeader(c)
 		gMatchAck(c)
 	}})
+	register(&PropertyRule{ID: "C03", Explain: "structural necessary conditions of C03 (log matching): see DESIGN.md §5 C03", Run: func(c *Check) {
+		gTrunc(c)
+		gStable(c)
+		gAppendMatch(c)
+		gStamp(c)
+	}})
 }
